@@ -178,6 +178,40 @@ def setDelItem (s : Node) (key : Text) : EditM Unit :=
     | none => pure ()
   | _, _ => throw .key
 
+/-! ### `Scope.__getitem__` / `__setitem__` / `__delitem__` on `target.scope` -/
+
+/-- `scope[key]` -/
+def scopeGetItem (d : Doc) (key : Text) : Except Err Node :=
+  match findBinding d.scope key with
+  | some b => match b.bindValue? with | some v => .ok v | none => .error .key
+  | none => .error .key
+
+/-- `scope[key] = value`: `_attrpath_order()` is `owner.scope_state.attrpath_order or None` -/
+def scopeSetItem (key : Text) (v : Node) : EditM Unit := fun d =>
+  match findBinding d.scope key with
+  | some b => match b.bindId? with
+    | some bid => assign bid v d
+    | none => (.ok (), d)
+  | none =>
+    let bid := d.next
+    let nb := Node.bind bid key false v [] []
+    (.ok (), { d with next := d.next + 1, scope := d.scope ++ [nb],
+                      stOrder := if d.stOrder.isEmpty then d.stOrder else d.stOrder ++ [nb] })
+
+/-- `del scope[key]`: the order item is removed when it is the binding or an entry holding it -/
+def scopeDelItem (key : Text) : EditM Unit := fun d =>
+  match findBinding d.scope key with
+  | none => (.error .key, d)
+  | some b => match b.bindId? with
+    | none => (.ok (), d)
+    | some bid =>
+      (.ok (), { d with
+        scope := d.scope.eraseP fun n => n.isBind && n.bindId? == some bid
+        stOrder := if d.stOrder.isEmpty then d.stOrder else d.stOrder.eraseP fun n => match n with
+          | .bind i .. => i == bid
+          | .entry _ leaf _ _ => leaf.bindId? == some bid
+          | _ => false })
+
 /-! ### attrpath families -/
 
 /-- the loop of `_set_attrpath_value` over `segments[1:-1]`: returns the set to put the leaf in.
